@@ -8,6 +8,12 @@ from .rng import Rng
 POL_UNIFORM, POL_STICKY, POL_PCT, POL_RR, POL_DEFAULT = 0, 1, 2, 3, 4
 
 
+def quote_id(name):
+    """Client identifiers are arbitrary non-empty strings; on the tape and in records they are percent-coded."""
+    import urllib.parse
+    return urllib.parse.quote(name, safe='')
+
+
 def new_run(rid, origin):
     return {
         'id': str(rid), 'seed': 1, 'policy': POL_UNIFORM, 'p1': 0, 'p2': 0, 'stall_from': 0, 'stall_len': 0,
@@ -27,7 +33,7 @@ def render(run) -> str:
     o.append(f"LOC {loc['pump']} {loc['runtime']} {loc['svcs']}")
     for p in run['inj_absent']:
         o.append(f'INJ {p} 0')
-    o.append(f"CLIENTS {run['clients']} " + ' '.join(run.get('client_names') or []))
+    o.append(f"CLIENTS {run['clients']} " + ' '.join(quote_id(n) for n in (run.get('client_names') or [])))
     for side, ev, cl in run['unbinds']:
         o.append(f'UNBIND {side} {ev} {cl}')
     o.append(f"PARENT {run['parent']}")
@@ -47,6 +53,8 @@ def render(run) -> str:
         o.append(f"REENTRY {run['reentry']}")
     if run.get('temploc'):
         o.append('TEMPLOC 1')
+    if run.get('hquery'):
+        o.append('HQUERY 1')
     if run.get('slowlog'):
         o.append(f"SLOWLOG {run['slowlog']}")
     for t in run['tasks']:
@@ -60,7 +68,7 @@ def render(run) -> str:
 
 
 # ------------------------------------------------------------------------------------------------ helpers
-CLIENT_NAME_POOL = ['zeta', 'alpha', 'mike', 'client10', 'client2', 'client1', 'A', 'a', 'Z', 'b.c', 'x/y', 'ab', 'abc', '9lives', '_u', 'UPPER',
+CLIENT_NAME_POOL = [' lead', 'trail ', 'in ner', '\ttab', 'a,b', '100%', 'zeta', 'alpha', 'mike', 'client10', 'client2', 'client1', 'A', 'a', 'Z', 'b.c', 'x/y', 'ab', 'abc', '9lives', '_u', 'UPPER',
                     'lower', 'mixedCase', 'mixedcase', 'c', 'cc', 'ccc', '~tilde', '0']
 
 
@@ -74,6 +82,8 @@ def vary_env(rng: Rng, run):
         run['idquery'] = r.between(1, run['clients'] - 1)
     if r.chance(30):
         run['sibling'] = r.between(1, 2)   # a second, independent instance of the same shell type lives in the process
+    if run.get('clients', 0) >= 1 and r.chance(35):
+        run['hquery'] = 1    # out-event handlers of the multi-client port ask the shell for the client identifiers
     if run['loc']['pump'] == 0 and run['loc']['runtime'] == 0 and r.chance(40):
         run['temploc'] = 1   # 'create' worlds only (new_run puts pump and runtime into the user's locator for 'import')
     return run
@@ -224,6 +234,13 @@ def gen_routing_run(rng: Rng, mb, rid, sweep=False):
         for s in run['scripts']:
             if s[0] == 1 and s[1] == mci['claim']:
                 s[3] = 1
+    early = Rng(rng.state, 'early')
+    if mci and not sweep and tasks and tasks[0]['name'] == 'c0' and tasks[0]['ops'][0] == ['O', mci['claim'], 0] and early.chance(30):
+        # the client claims before the user gets round to FinalConstruct, and then replaces its out-event handlers
+        # (a new peer takes over) while its port is quiet; both before any other task exists
+        del tasks[0]['ops'][0]
+        pre = [['O', mci['claim'], 0]] + ([['R', 0]] if early.chance(70) else [])
+        tasks = [{'name': 'early', 'ops': pre, 'pre': 1}] + [t for t in tasks if t['ops']]
     run['tasks'] = tasks
     run['connect'] = 1 if rng.chance(35) else 0
     run['templog'] = 1 if (mci and rng.chance(50)) else 0
@@ -331,8 +348,10 @@ def gen_c04_run(rng: Rng, mb, rid, faulty):
     ops = []
     holder = None   # the generator's own idea of the holder, only used to bias the history
     for _ in range(rng.between(5, 40)):
-        kind = rng.weighted([(5, 'claim'), (4, 'release'), (4, 'other'), (3, 'otherport'), (4, 'peer'), (2, 'idle')])
-        if kind == 'claim':
+        kind = rng.weighted([(5, 'claim'), (4, 'release'), (4, 'other'), (3, 'otherport'), (4, 'peer'), (2, 'idle'), (1, 'rebind')])
+        if kind == 'rebind':
+            ops.append(['R', rng.below(n_clients)])   # a client replaces its out-event handlers while its port is quiet
+        elif kind == 'claim':
             x = rng.below(n_clients)
             if not faulty and holder is not None:
                 continue
